@@ -147,6 +147,7 @@ def run(case, choices):
                 eperm.append((s.now, actor, detail))
         sim.observers.append(call_observer)
     m = w.start_master()
+    m.groups = [0, 4, 27]          # root's own supplementary groups (adm, sudo): nothing of them may survive in a worker that drops to a user with initgroups
     masters = [m]
 
     def observer(s, actor, kind, detail):
@@ -198,7 +199,8 @@ def run(case, choices):
                 res.violate("C20:gid:%s:%s" % ("initgroups" if case["initgroups"] else "no-initgroups", spell),
                             "worker pid %d (%s) loaded the application with gids (real, effective, saved)=%r, configured gid %r "
                             "(initgroups=%s); %s" % (l["pid"], gen, l["gids"], want_gid, case["initgroups"], ctx()))
-            if case["initgroups"] and want_uid and want_gid and want_uid in sim.passwd and not changed:
+            if case["initgroups"] and want_uid and want_uid in sim.passwd and not changed:
+                # (with only a user configured the primary group stays the master's, 0, and initgroups() adds it to the user's list)
                 exp = sorted(set(sim.passwd[want_uid][2]) | {want_gid})
                 if l["groups"] != exp:
                     res.violate("C20:groups:%s" % spell, "worker pid %d: supplementary groups %r, expected %r for user %r; %s"
